@@ -100,8 +100,16 @@ int main(int argc, char **argv) {
     return 0;
   }
   if (argc >= 2 && !strcmp(argv[1], "--rc")) {
+    // shrinking is bounded by a COUNT of evaluations after the first failure (it only makes the replay
+    // file smaller): later-added choices are read from the end of the tape, so that removing a byte
+    // re-decodes them and greedy shrinking of a blatant failure can go on for a very long time
+    unsigned long shrink_evals = 0, shrink_cap = 6000;
+    if (const char *p = getenv("VERIF_SHRINK_EVALS"))
+      shrink_cap = strtoul(p, nullptr, 10);
     bool ok = rc::check(harness_name(), [&]() {
       const auto t = *tape_gen();
+      if (R().frozen && ++shrink_evals > shrink_cap)
+        return; // candidate not examined: counts as passing, the current failing tape stays the result
       note_current(t);
       int rcx = run_case_wrapped(t.data(), t.size(), false);
       if (rcx) {
